@@ -149,6 +149,11 @@ def transform_case(rng, idx):
         ops.append("p.new %d %s" % (k, hx(v)))
     for _ in range(rng.randint(4, 14)):
         r = rng.random()
+        if rng.random() < 0.06:
+            # clone() of the transformed parameter: the history continues on the clone
+            k2 = rng.randint(0, 3)
+            ops.append("t.clone %d %d" % (k2, k))
+            k = k2
         if r < 0.35:
             if rng.random() < 0.08:
                 # the exception stream: a value on or outside a bound
@@ -317,6 +322,255 @@ def wrapper_case(rng, idx, stats):
     return ["case wr%d n%d" % (idx, n)] + ops
 
 
+# ---------------------------------------------------------------------------------------------------
+# object cases: several wrappers (all three classes, both constructors, sub-lists in every order) of
+# one or two shared function objects, copies / clones / assignments, interleaved use
+# ---------------------------------------------------------------------------------------------------
+
+SEL_KINDS = ["all", "prefix", "perm_full", "perm_sub", "gaps", "single", "single_first"]
+
+
+def fn_params(rng, n, stats):
+    """n parameters of a function: protocol tokens and (shape, ilo, ihi) per parameter; values inside"""
+    toks, desc = [], []
+    for _ in range(n):
+        shape = rng.choice(SHAPES)
+        lo, hi, ilo, ihi = shape_bounds(rng, shape)
+        v = value_in(rng, ilo, ihi, stats)
+        if shape in ("cc", "oo", "co", "oc") and not (lo < v < hi):
+            v = (lo + hi) / 2
+        toks += [shape, hx(lo), hx(hi), hx(v), hx(dyadic(rng)), hx(dyadic(rng)), hx(dyadic(rng, 0.4))]
+        desc.append((shape, ilo, ihi))
+    return toks, desc
+
+
+def pick_sel(rng, n):
+    """a selection of the function's parameters for a constructor: (kind, list of indices or None)"""
+    kinds = ["all", "perm_sub", "perm_sub", "perm_full", "gaps", "single", "prefix", "single_first"]
+    for _ in range(20):
+        kind = rng.choice(kinds)
+        if kind == "all":
+            return kind, None
+        if kind == "prefix" and n >= 2:
+            return kind, list(range(rng.randint(1, n - 1)))
+        if kind == "perm_full" and n >= 2:
+            l = list(range(n))
+            while l == sorted(l):
+                rng.shuffle(l)
+            return kind, l
+        if kind == "perm_sub" and n >= 3:
+            k = rng.randint(2, n - 1)
+            l = rng.sample(range(n), k)
+            if l == sorted(l):
+                l.reverse()
+            return kind, l
+        if kind == "gaps" and n >= 3:
+            k = rng.randint(1, n - 1)
+            l = sorted(rng.sample(range(n), k))
+            if l != list(range(k)):
+                return kind, l
+        if kind == "single" and n >= 2:
+            return kind, [rng.randint(1, n - 1)]
+        if kind == "single_first":
+            return kind, [0]
+    return "all", None
+
+
+def inside_value(rng, d):
+    shape, ilo, ihi = d
+    return value_in(rng, ilo, ihi)
+
+
+def object_case(rng, idx, stats):
+    def st(key):
+        stats[key] = stats.get(key, 0) + 1
+    funcs = {}
+    ops = []
+    n0 = rng.randint(2, 5)
+    toks, desc = fn_params(rng, n0, stats)
+    ops.append("f.new 0 %d %s" % (n0, " ".join(toks)))
+    funcs[0] = desc
+    if rng.random() < 0.3:
+        n1 = rng.randint(1, 4)
+        toks, desc = fn_params(rng, n1, stats)
+        ops.append("f.new 1 %d %s" % (n1, " ".join(toks)))
+        funcs[1] = desc
+        st("ob_two_functions")
+    regs = {}   # k -> dict(names, cls, fid)
+    h = 2.0 ** -12
+
+    def mk(k, fid):
+        n = len(funcs[fid])
+        kind, sel = pick_sel(rng, n)
+        cls = rng.choice([0, 1, 2, 2, 2])
+        if sel is None:
+            seltok = "all"
+            names = list(range(n))
+        else:
+            items = []
+            for i in sel:
+                if rng.random() < 0.07:
+                    items.append("%d@%s" % (i, hx(inside_value(rng, funcs[fid][i]))))
+                    st("ob_given_other_value")
+                else:
+                    items.append(str(i))
+            if rng.random() < 0.15:
+                items.insert(rng.randint(0, len(items)), "f")
+            seltok = ",".join(items)
+            names = list(sel)
+        ops.append("w.mk %d %d %d %s" % (k, fid, cls, seltok))
+        regs[k] = dict(names=names, cls=cls, fid=fid, kind=kind)
+        if rng.random() < 0.5:
+            ops.append("w.use %d" % k)
+            ops.append("w.names")
+        st("ob_ctor_" + kind); st("ob_cls%d" % cls)
+
+    def use(k):
+        ops.append("w.use %d" % k)
+
+    def named(r):
+        k = rng.randint(1, len(r["names"]))
+        return rng.sample(r["names"], k)
+
+    def update(k, heavy=False):
+        """an update / evaluation through register k (preceded by w.use)"""
+        r = regs[k]
+        use(k)
+        x = rng.random()
+        if x < 0.5 or heavy:
+            if rng.random() < 0.3:
+                ns = list(r["names"])      # f(all the parameters)
+                rng.shuffle(ns)
+                st("ob_set_all")
+            else:
+                ns = named(r)
+            ops.append("w.set %d %s" % (len(ns), " ".join("%d %s" % (i, hx(coord(rng))) for i in ns)))
+            st("ob_set")
+        elif x < 0.57:
+            ns = named(r)
+            ops.append("w.touch %d %s" % (len(ns), " ".join(str(i) for i in ns)))
+        elif x < 0.62:
+            ops.append(rng.choice(["w.get", "w.get", "w.names"]))
+        elif x < 0.72:
+            y = rng.random()
+            if y < 0.08:
+                ops.append("w.fire")
+            elif y < 0.3:
+                ops.append("w.pv %d %s" % (rng.choice(r["names"]), hx(coord(rng))))
+            elif y < 0.5:
+                ops.append("w.all %s" % " ".join(hx(coord(rng)) for _ in r["names"]))
+            elif y < 0.75:
+                ns = named(r)
+                ops.append("w.match %d %s" % (len(ns), " ".join("%d %s" % (i, hx(coord(rng))) for i in ns)))
+            else:
+                ns = named(r)
+                ops.append("w.pvs %d %s" % (len(ns), " ".join("%d %s" % (i, hx(coord(rng))) for i in ns)))
+            st("ob_inherited_setter")
+            if rng.random() < 0.7:
+                # ... followed by f() on the current values: the function catches up
+                ns = named(r)
+                ops.append("w.touch %d %s" % (len(ns), " ".join(str(i) for i in ns)))
+        elif x < 0.75:
+            if r["cls"] >= 1:
+                ops.append("w.en %d %d" % (rng.randint(1, r["cls"]), rng.randint(0, 1)))
+        else:
+            deriv(k)
+
+    def deriv(k):
+        r = regs[k]
+        if r["cls"] == 0:
+            ops.append("w.get")
+            return
+        y = rng.random()
+        i = rng.choice(r["names"])
+        if r["cls"] == 1:
+            ops.append(rng.choice(["w.d1 %d" % i, "w.fd1 %d %s" % (i, hx(h))]))
+            st("ob_deriv_cls1")
+            return
+        if y < 0.2:
+            ops.append("w.d1 %d" % i)
+        elif y < 0.4:
+            ops.append("w.d2 %d %d" % (i, rng.choice(r["names"])))
+        elif y < 0.8 or len(r["names"]) == 1:
+            ops.append("w.fd %d %s" % (i, hx(h)))
+        else:
+            j = rng.choice([x for x in r["names"] if x != i])
+            if rng.random() < 0.7 and (i + 1 in r["names"] or i - 1 in r["names"]):
+                j = i + 1 if i + 1 in r["names"] else i - 1
+            ops.append("w.fdx %d %d %s" % (i, j, hx(h)))
+        st("ob_deriv_cls2")
+
+    mk(0, 0)
+    if rng.random() < 0.45:
+        mk(1, 1 if (1 in funcs and rng.random() < 0.6) else 0)
+    for _ in range(rng.randint(1, 3)):
+        if rng.random() < 0.6:
+            update(rng.choice(list(regs.keys())))
+    # copies, each followed by updates through the copy and through the original
+    for _ in range(rng.randint(1, 4)):
+        j = rng.choice(list(regs.keys()))
+        kind = rng.choice(["clone", "clone", "copy", "assign"])
+        if kind == "assign":
+            if len(regs) == 1 and rng.random() < 0.9:
+                # a target to assign to: another wrapper, of another function when there is one
+                free = [q for q in range(4) if q not in regs]
+                mk(free[0], 1 if (1 in funcs and rng.random() < 0.6) else 0)
+            cands = list(regs.keys())
+            k = rng.choice(cands)
+            if k == j and rng.random() < 0.93 and len(cands) > 1:
+                k = rng.choice([c for c in cands if c != j])
+            ops.append("w.assign %d %d" % (k, j))
+            if regs[k]["fid"] != regs[j]["fid"]:
+                st("ob_assign_across_functions")
+            if regs[k]["names"] != regs[j]["names"]:
+                st("ob_assign_across_sublists")
+            if k == j:
+                st("ob_assign_self")
+            regs[k] = dict(names=list(regs[j]["names"]), cls=regs[k]["cls"], fid=regs[j]["fid"], kind=regs[j]["kind"])
+            if regs[k]["cls"] != regs[j]["cls"]:
+                st("ob_assign_across_classes")
+        else:
+            k = rng.randint(0, 3)
+            ops.append("w.%s %d %d" % (kind, k, j))
+            regs[k] = dict(names=list(regs[j]["names"]), cls=regs[j]["cls"], fid=regs[j]["fid"], kind=regs[j]["kind"])
+        st("ob_" + kind); st("ob_%s_of_%s" % ("copy" if kind != "assign" else "assign", regs[j]["kind"]))
+        order = [k, j] if rng.random() < 0.7 else [j, k]
+        for q in order:
+            update(q, heavy=True)
+            if rng.random() < 0.7:
+                use(q); deriv(q)
+        for _ in range(rng.randint(0, 3)):
+            update(rng.choice(list(regs.keys())))
+        if rng.random() < 0.15:
+            # the owner of a function moves it directly
+            fid = rng.choice(list(funcs.keys()))
+            ns = rng.sample(range(len(funcs[fid])), rng.randint(1, len(funcs[fid])))
+            ops.append("f.set %d %d %s" % (fid, len(ns), " ".join("%d %s" % (i, hx(inside_value(rng, funcs[fid][i]))) for i in ns)))
+            st("ob_direct_move")
+            update(rng.choice(list(regs.keys())))
+        if rng.random() < 0.08 and len(regs) < 4:
+            # a wrapper built later, on the function where it now stands
+            free = [q for q in range(4) if q not in regs]
+            mk(free[0], rng.choice(list(funcs.keys())))
+    if rng.random() < 0.15:
+        # the exception stream (last operation: every object is dropped after an exception)
+        k = rng.choice(list(regs.keys()))
+        r = regs[k]
+        rest = [i for i in range(len(funcs[r["fid"]])) if i not in r["names"]]
+        use(k)
+        if rest:
+            i = rng.choice(rest)
+            cand = ["w.set 2 %d %s %d %s" % (r["names"][0], hx(coord(rng)), i, hx(coord(rng))), "w.pv %d %s" % (i, hx(coord(rng))),
+                    "w.touch 1 %d" % i]
+            if r["cls"] >= 1:
+                cand.append("w.d1 %d" % i)
+            if r["cls"] >= 2:
+                cand += ["w.d2 %d %d" % (i, r["names"][0]), "w.fd %d %s" % (i, hx(h))]
+            ops.append(rng.choice(cand))
+            st("ob_exception_stream")
+    return ["case ob%d n%d" % (idx, n0)] + ops
+
+
 STATS = {}
 
 
@@ -330,6 +584,9 @@ def generate(seed, tier):
     stats = {}
     for i in range(n_wr):
         cases.append(wrapper_case(rng, i, stats))
+    n_ob = 30000 if tier == "thorough" else 1500
+    for i in range(n_ob):
+        cases.append(object_case(rng, i, stats))
     STATS.clear(); STATS.update(stats)
     return cases
 
